@@ -3272,6 +3272,12 @@ class SSHConnection(SSHPacketHandler, asyncio.Protocol):
             # which are too long, embedded NULs) raise ValueError
             raise ChannelOpenError(OPEN_CONNECT_FAILED, str(exc)) from None
 
+        if self.is_closed():
+            # The SSH connection was closed while connecting
+            cast(SSHForwarder, peer).close()
+            raise ChannelOpenError(OPEN_CONNECT_FAILED,
+                                   'SSH connection closed')
+
         return SSHForwarder(cast(SSHForwarder, peer))
 
     async def forward_unix_connection(self, dest_path: str) -> SSHForwarder:
@@ -3296,6 +3302,12 @@ class SSHConnection(SSHPacketHandler, asyncio.Protocol):
             self.logger.info('  Forwarding UNIX connection to %s', dest_path)
         except OSError as exc:
             raise ChannelOpenError(OPEN_CONNECT_FAILED, str(exc)) from None
+
+        if self.is_closed():
+            # The SSH connection was closed while connecting
+            cast(SSHForwarder, peer).close()
+            raise ChannelOpenError(OPEN_CONNECT_FAILED,
+                                   'SSH connection closed')
 
         return SSHForwarder(cast(SSHForwarder, peer))
 
